@@ -26,7 +26,7 @@ RULE = (
     "otherwise in the quick tier) and an array with zero entries; every (agent, period pair, state variable) is an "
     "oracle evaluation; distinct by digest of the simulated frames"
 )
-ASSUMPTIONS = ["reference resolver mc/refmodel.Ref.ev evaluates transition functions by name", "integers exact, floats 1e-12"]
+ASSUMPTIONS = ["initial-state dtype alphabet: float64 for all states; additionally int64 arrays for continuous states whose grid nodes are integral", "reference resolver mc/refmodel.Ref.ev evaluates transition functions by name", "integers exact, floats 1e-12"]
 BUDGET_S = {"quick": 1500, "thorough": 7200}
 PRONE = ["filt", "e", "cc", "h", "cons", "wgrid", "trans", "aux"]
 
@@ -43,6 +43,13 @@ def cases(tier, seed):
             if i not in seen:
                 seen.add(i)
                 out.append({"id": i, "fv": fv, "dev": dev, "seed": seed, "tier": tier})
+    # explicit members with a non-broadcast-safe auxiliary function in the ancestry of next_w (K5)
+    for extra in ({}, {"filt": "none"}, {"T": 2}):
+        fv = family.normalise(dict(family.BASE, aux="reduce", **extra))
+        i = e1.fv_id(fv)
+        if i not in seen:
+            seen.add(i)
+            out.append({"id": i, "fv": fv, "dev": 1 + len(extra), "seed": seed, "tier": tier})
     return out
 
 
@@ -148,6 +155,18 @@ def run_case(case):
         traces += 1
         dig.append(fr.to_numpy())
         cnt += check_frame(r, fr, init, params, viols, f"seed {sd}")
+    # legal input: on-grid initial values of a continuous state supplied as an INTEGER array
+    int_states = [s for s in r.cont_states if np.all(r.grids[s] == np.rint(r.grids[s]))]
+    if int_states and not viols:
+        init_g, _ = e1.initial_states(r, R[0], offgrid=False)
+        jint = {s: (jnp.asarray(v.astype(np.int64)) if (s in int_states or r.kind[s] == "DiscreteGrid") else jnp.asarray(v)) for s, v in init_g.items()}
+        try:
+            fr = sim(params, initial_states=jint, vf_arr_list=[jnp.asarray(v) for v in V], seed=3)
+            traces += 1
+            dig.append(fr.to_numpy())
+            cnt += check_frame(r, fr, init_g, params, viols, f"integer-typed initial {int_states}")
+        except Exception as e:
+            viols.append(violation("runs", "simulate", "EXC:" + type(e).__name__, f"integer-typed initial states: {str(e)[:300]}"))
     n_onehot = 0
     if r.stochastic and not viols:
         cap = 64 if (case["dev"] <= 1 or case["tier"] == "thorough") else 8
